@@ -268,7 +268,8 @@ def judge(name, text, schema_names, exp_ents, exp_types, res):
         if o['kind'] != t['kind']:
             out.append(('type-kind/%s' % t['kind'].lower(), 'type %s is a %s, declared %s' % (tn, o['kind'], t['kind'])))
             continue
-        if t['kind'] == 'ENUMERATION' and sorted(o['items']) != sorted(t['items']):
+        nb = lambda x: x[:-1] if (x.endswith('_') and x[:-1] in PYBUILTINS and x[:-1] not in PYKW) else x      # a builtin's name may or may not be escaped
+        if t['kind'] == 'ENUMERATION' and sorted(nb(x) for x in o['items']) != sorted((i + '_' if i in PYKW else i) for i in t['items']):      # (an item named like a keyword gets the underscore too)
             out.append(('enumeration-items', 'type %s has items %s, declared %s' % (tn, o['items'], t['items'])))
         if t['kind'] == 'SELECT' and sorted(str(x).lower().rstrip('_') for x in o['members']) != sorted(m.rstrip('_') for m in t['members']):
             out.append(('select-members', 'type %s has members %s, declared %s' % (tn, o['members'], t['members'])))
@@ -295,10 +296,10 @@ def family_N():
     # attribute names
     sch = smodel.Schema('n_attr_kw', [], [smodel.Entity('holder', [smodel.Attr(k, S('INTEGER')) for k in kws + builtins_])])
     out.append(sch)
-    for k in kws[:6] + builtins_[:8]:
+    for k in kws + builtins_[:9]:
         out.append(smodel.Schema('n_ent_' + k, [], [smodel.Entity(k, [smodel.Attr('v', S('INTEGER'))]), smodel.Entity('sub_' + k, [smodel.Attr('w', S('REAL'))], supers=[k])]))
-    for k in kws[:4] + builtins_[:4]:
-        out.append(smodel.Schema('n_type_' + k, [smodel.TypeDecl(k, S('INTEGER')), smodel.TypeDecl('e_' + k, ('enum', [k + '_a', 'pass_', 'b']))],
+    for k in kws + builtins_[:9]:
+        out.append(smodel.Schema('n_type_' + k, [smodel.TypeDecl(k, S('INTEGER')), smodel.TypeDecl('e_' + k, ('enum', [k + '_a', k, 'b']))],
                                  [smodel.Entity('uses', [smodel.Attr('v', N(k)), smodel.Attr('w', N('e_' + k))])]))
     return out
 
